@@ -143,7 +143,7 @@ func (s *serverSocket) onPacket(header *parser.PacketHeader, eventName string, d
 		}
 
 		for _, handler := range s.eventHandlers.getAll(eventName) {
-			s.onEvent(handler, header, decode, sendAck)
+			s.onEvent(handler, header, eventName, decode, sendAck)
 		}
 	case parser.PacketTypeAck, parser.PacketTypeBinaryAck:
 		s.onAck(header, decode)
@@ -164,6 +164,7 @@ func (s *serverSocket) onDisconnect() {
 func (s *serverSocket) onEvent(
 	handler *eventHandler,
 	header *parser.PacketHeader,
+	eventName string,
 	decode parser.Decode,
 	sendAck ackSendFunc,
 ) (hasAckFunc bool) {
@@ -184,7 +185,7 @@ func (s *serverSocket) onEvent(
 		return
 	}
 
-	err = s.callMiddlewares(values)
+	err = s.callMiddlewares(eventName, values)
 	if err != nil {
 		s.onError(err)
 		return
